@@ -2401,6 +2401,37 @@ class Generator:
                 return {'op': 'app_delete', 'name': name}
         return None
 
+    def g_resize_mixed(self, world):
+        """A loaded server is redeclared with one dimension larger and
+        another smaller than what is placed on it (same rack, partition and
+        traits): its instances are put back one by one, the ones that no
+        longer fit are not."""
+        import math
+        stored = world.stored_placement()
+        servers = sorted({s for recs in stored.values() for s, _d in recs
+                          if world.zk.nodes.get(z.path.server(s))})
+        if not servers:
+            return None
+        name = self.rng.choice(servers)
+        old = world._zk_obj(z.path.server(name)) or {}
+        free = world.m_free(name)
+        if not old.get('parent') or free is None:
+            return None
+        cap = [math.floor(x + 1e-9) for x in _own_vec(old)]
+        used = [cap[d] - free[d] for d in range(3)]
+        dims = [0, 1, 2]
+        self.rng.shuffle(dims)
+        up, down = dims[0], dims[1]
+        new = list(cap)
+        new[up] = cap[up] + self.rng.choice([10, 256, 512])
+        new[down] = max(0, used[down] - self.rng.choice([1, 10, 256]))
+        self.follow.extend([{'op': 'drain'}, {'op': 'master_cycle'}])
+        return {'op': 'srv_set', 'name': name, 'parent': old['parent'],
+                'partition': old.get('partition') or '_default',
+                'memory': '%dM' % new[0], 'cpu': '%d%%' % new[1],
+                'disk': '%dM' % new[2], 'traits': old.get('traits') or [],
+                'up_since': old.get('up_since')}
+
     def g_delete_then_apps_event(self, world):
         """A placed instance is deleted while an 'apps' event naming it is
         on its way; the master handles the event before it sees the new
@@ -2643,6 +2674,7 @@ OP_WEIGHTS = [
     ('identity_evict_restore', 3), ('drop_giants', 0),
     ('delete_then_apps_event', 3), ('move_partition', 3),
     ('lease_squeeze_failover', 3), ('flap_then_place', 5),
+    ('resize_mixed', 3),
 ]
 
 
